@@ -80,6 +80,7 @@ fn main() {
             "c04_env" => vm::c04_env(r),
             "c06_mutations" => c06::c06_mutations(r),
             "c08" => c06::c08(r),
+            "c07_header" => c06::c07_header(r),
             "c14_votes" => c14::c14_votes(r),
             "c13_unlock" => c14::c13_unlock(r),
             other => json!({"error": format!("unknown kind {other}")}),
